@@ -40,7 +40,7 @@ def check_nesting(raw):
     for i, e in enumerate(raw):
         k = e[0]
         top = stack[-1] if stack else None
-        if k in ('st', 'cfg', 'vissue'):
+        if k in ('st', 'cfg', 'vissue', 'fed', 'ser', 'deserialized'):
             if k == 'st' and stack:
                 raise NestError(i, "step() returned with open bracket %s" % (stack,))
             continue
